@@ -12,6 +12,17 @@ PROPS = {
         "assumptions": ["rustc MIR construction and callee resolution (Instance::try_resolve)",
                         "panicking paths are not normal exits (covered by C04)"],
     },
+    "C14": {
+        "module": "c14",
+        "explanation": "Path rules on Builtins::out / Builtins::convert decide: the artifact is created only after the converter "
+                       "returned successfully (R49, all-or-nothing), the one-out-per-file lock is tested before it is taken and "
+                       "guards every conversion/creation (R50), the created path is <source>.with_extension(file_ext()) of the "
+                       "selected converter (R51), `out` and `convert` run the same registry converter on the same popped value "
+                       "and do not post-process the bytes (R52); the registry/extension table is enumerated (R87b). "
+                       "Not decided: byte equality as a value, I/O faults during write_all.",
+        "assumptions": ["std::fs::File::create / OpenOptions / fs::write are the only ways the hook creates files",
+                        "a partially failed write_all (I/O fault) is outside the property's quantifier"],
+    },
 }
 
 
